@@ -164,7 +164,7 @@ func (tc *typechecker) checkArrayType(array *ast.ArrayType, length int) *typeInf
 		if length == -1 {
 			panic(tc.errorf(array, "use of [...] array outside of array literal"))
 		}
-		tc.compilation.typeInfos[array] = &typeInfo{Properties: propertyIsType, Type: tc.types.ArrayOf(length, elem.Type)}
+		tc.compilation.typeInfos[array] = &typeInfo{Properties: propertyIsType, Type: tc.arrayOf(array, length, elem.Type)}
 		return tc.compilation.typeInfos[array]
 	}
 	len := tc.checkExpr(array.Len)
@@ -185,8 +185,24 @@ func (tc *typechecker) checkArrayType(array *ast.ArrayType, length int) *typeInf
 	if b < length {
 		panic(tc.errorf(array, "array index %d out of bounds [0:%d]", length-1, b))
 	}
-	tc.compilation.typeInfos[array] = &typeInfo{Properties: propertyIsType, Type: tc.types.ArrayOf(b, elem.Type)}
+	tc.compilation.typeInfos[array] = &typeInfo{Properties: propertyIsType, Type: tc.arrayOf(array, b, elem.Type)}
 	return tc.compilation.typeInfos[array]
+}
+
+// arrayOf returns the array type with the given length and element type. As
+// the gc compiler does, it panics with a type checking error if the array
+// type is larger than the address space.
+func (tc *typechecker) arrayOf(array *ast.ArrayType, length int, elem reflect.Type) reflect.Type {
+	if size := uint64(elem.Size()); size > 0 {
+		maxSize := uint64(1<<32 - 1)
+		if strconv.IntSize == 64 {
+			maxSize = 1 << 50
+		}
+		if uint64(length) > (maxSize-1)/size {
+			panic(tc.errorf(array, "type [%d]%s larger than address space", length, elem))
+		}
+	}
+	return tc.types.ArrayOf(length, elem)
 }
 
 // checkExpr type checks an expression and returns its type info.
@@ -533,6 +549,9 @@ func (tc *typechecker) typeof(expr ast.Expression, typeExpected bool) *typeInfo 
 			dir = reflect.SendDir
 		}
 		elem := tc.checkType(expr.ElementType)
+		if elem.Type.Size() >= 1<<16 {
+			panic(tc.errorf(expr, "channel element type too large (>64kB)"))
+		}
 		return &typeInfo{Properties: propertyIsType, Type: tc.types.ChanOf(dir, elem.Type)}
 
 	case *ast.CompositeLiteral:
